@@ -1,5 +1,6 @@
 SPECIFICATION GSpec
 CONSTANT O = {}
+CONSTANT Ops = {"process", "decode", "get_length", "enc", "set"}
 CONSTANT CtxIds = {1}
 CONSTANT Cfg <- CfgDef
 CONSTANT Packets <- PacketsDef
